@@ -24,6 +24,8 @@ Definition mem (i : nat) (l : list nat) : bool := existsb (Nat.eqb i) l.
 Definition remove (i : nat) (l : list nat) : list nat := filter (fun j => negb (j =? i)) l.
 Definition remove_inst (i : inst) (l : list (name * inst)) := filter (fun p => negb (snd p =? i)) l.
 Definition del_name (n : name) (l : list (name * inst)) := filter (fun p => negb (fst p =? n)) l.
+Fixpoint dedup (l : list nat) : list nat :=
+  match l with [] => [] | a :: t => if mem a t then dedup t else a :: dedup t end.
 Definition count (i : nat) (l : list nat) : nat := length (filter (Nat.eqb i) l).
 Definition is_some {A} (o : option A) : bool := match o with Some _ => true | None => false end.
 Definition opt_eqb (a b : option nat) : bool :=
@@ -167,7 +169,8 @@ Definition mstep (s : impl) (m : micro) (k : list micro) : impl * list micro :=
                notif := notif s; attached := attached s; res_log := res_log s; notified := notified s;
                registered := registered s |}, k)
   | MStoreClose c =>
-      let live := filter (fun i => negb (is_closed s i)) (mlist s) in
+      (* the loop CASes every listed module in turn: a module is swept at most once *)
+      let live := dedup (filter (fun i => negb (is_closed s i)) (mlist s)) in
       ({| nmap := None; mlist := []; closedw := map (fun i => (i, c)) live ++ closedw s; iname := iname s;
           rt_closed := rt_closed s;
           notif := filter (fun i => negb (mem i live)) (notif s); attached := attached s;
